@@ -10,6 +10,10 @@ Case = {"expr": <string>, "cst": <concrete syntax tree or None>, "systems": [[id
   gives the same string (so the case is a member of the printer family of `eval_parse_print`)
   and evaluates the spec on the implementation's results against the TREE (not against the
   model's parse).
+* keyword-before-paren stream: the one family of `legal` renderings that is behaviour of the code and
+  not a promise of the documentation — a bare `and`/`or`/`not` directly before `)` is an id-glob term
+  (`(and)`, `(x or not)`); run with their concrete syntax trees like the tree stream, so the
+  `legal` predicate of `parse_sound` / `parse_iff_rendering` is tied to the real parser on it.
 * mutation stream: token- and character-level mutations of such renderings and a hand-written
   list of the documented error classes; reference = the Lean parser (accepted → value of its
   tree, rejected → ValueError).
@@ -55,7 +59,12 @@ THEOREMS = [
     "Vinegar.C18.cache_history",
     "Vinegar.C18.first_use_eq_cached_use",
     "Vinegar.C18.checkCase_model",
-    "Vinegar.C18.parse_sound_partial",
+    "Vinegar.C18.parse_sound",
+    "Vinegar.C18.parse_iff_rendering",
+    "Vinegar.C18.reject_every_other_string",
+    "Vinegar.C18.accepted_meaning",
+    "Vinegar.C18.renderings_unambiguous",
+    "Vinegar.C18.keyword_before_paren",
     "Vinegar.C18.generated_tables",
 ]
 TRUSTED_BASE = [
@@ -336,6 +345,36 @@ def random_tree(rng, k):
     return [op, random_tree(rng, i), random_tree(rng, k - 1 - i)]
 
 
+def bare_keyword_tops():
+    """the one family of legal renderings that is behaviour of the code rather than a promise of the
+    documentation (Spec/Matcher.lean, `bareKeyword`): an unquoted prefix-less `and` / `or` / `not`
+    directly before the `)` of the enclosing group is an id-glob term"""
+    def atom(p):
+        return {"t": "atom", "key": None, "kind": "glob", "pattern": p, "cs": False, "shorthand": True,
+                "slash": True, "keyq": "none", "patq": "none"}
+
+    def paren(ws1, c):
+        return {"t": "paren", "ws1": ws1, "c": c, "ws2": ""}
+
+    def binop(op, l, ws1, ws2, r):
+        return {"t": op, "l": l, "ws1": ws1, "ws2": ws2, "r": r}
+    x = atom("web*")
+    out = []
+    for kw in KEYWORDS:
+        k = atom(kw)
+        for ws1 in ("", " ", "\t\n"):
+            out.append(paren(ws1, k))
+            out.append(paren(ws1, {"t": "not", "ws": " ", "c": k}))
+            out.append(paren(ws1, binop("and", x, " ", "\u2003", k)))
+            out.append(paren(ws1, binop("or", x, "\t", " ", k)))
+            out.append(paren(ws1, binop("or", x, " ", " ", binop("and", x, " ", " ",
+                                                              {"t": "not", "ws": " ", "c": k}))))
+        out.append({"t": "not", "ws": "", "c": paren("", k)})
+        out.append(binop("and", paren("", binop("or", x, " ", " ", k)), "", " ", x))
+        out.append(binop("or", paren("", k), " ", "", paren(" ", paren("", k))))
+    return [{"lead": lead, "c": c, "trail": trail} for c in out for lead, trail in (("", ""), (" ", "\n"))]
+
+
 def mk_case(top, systems, kind, evict=False, expr=None):
     e = expr if expr is not None else top["lead"] + render(top["c"]) + top["trail"]
     return {"expr": e, "cst": top if expr is None else None, "systems": systems, "evict": evict, "_kind": kind}
@@ -454,6 +493,9 @@ def gen(rng, tier, mult=1):
     quick = tier == "quick"
     max_k = 3 if quick else 4
     renderings = []
+    # 0a. bare keyword terms directly before a closing parenthesis (legal by `legal`, accepted by the code)
+    for top in bare_keyword_tops():
+        yield mk_case(top, SYSTEMS, "keyword-before-paren")
     # 0. every term of the alphabet alone, in every quoting
     for i in range(len(ATOMS)):
         for q in ("none", "single", "double", "random"):
